@@ -3,6 +3,7 @@ C12 — reported dwell and fabrication times agree with the program.
 -/
 import FemtoVerif.Proofs.Session
 import FemtoVerif.Gen.Data
+import FemtoVerif.Props.C01
 import Mathlib.Algebra.BigOperators.Group.List.Basic
 
 set_option linter.unusedSimpArgs false
@@ -92,11 +93,98 @@ theorem fabtime_closed_path (dist : P → P → Rat) (hd : ∀ p, dist p p = 0) 
 
 end fab
 
+/-! ### one pass of the compiled program
+
+The estimate of `fabtime_closed_path` is stated over the recorded points; this section ties it to **the compiled program**:
+the travel time of the moves the reference controller makes when it runs what `write` emitted (C01, `write_replays`) is
+the same sum over the printed points — a point that repeats its predecessor makes no move and contributes `dist p p / f = 0`. -/
+
+section pass
+variable (dist : Pos → Pos → Rat)
+
+/-- travel time of executed moves: distance over the programmed feed -/
+def travel (ms : List Move) : Rat :=
+  (ms.map fun m => match m.feed with | some f => dist m.src m.dst / f | none => 0).sum
+
+/-- printed position and feed of every point -/
+def stations (ws : List (G1W × Rat)) : List (Pos × Rat) := ws.map fun w => (posOf w.1, w.1.f.getD 0)
+
+theorem travel_append (a b : List Move) : travel dist (a ++ b) = travel dist a + travel dist b := by
+  simp [travel, List.map_append, List.sum_append]
+
+theorem travel_expected (hd : ∀ p, dist p p = 0) (prev : Pos) (f0 : Rat) (ws : List (G1W × Rat))
+    (hf : ∀ w ∈ ws, w.1.f.isSome = true) :
+    travel dist (expectedFrom prev ws) = segTimes dist ((prev, f0) :: stations ws) := by
+  induction ws generalizing prev f0 with
+  | nil => simp [expectedFrom, travel, stations, segTimes]
+  | cons hd' rest ih =>
+    obtain ⟨w, s⟩ := hd'
+    obtain ⟨f, hfw⟩ := Option.isSome_iff_exists.mp (hf (w, s) (by simp))
+    have hfw' : w.f = some f := hfw
+    have ih' := ih (posOf w) f (fun w' hw' => hf w' (by simp [hw']))
+    simp only [expectedFrom, travel_append, ih']
+    simp only [stations, List.map_cons, segTimes, hfw', Option.getD_some]
+    by_cases hpos : posOf w = prev
+    · simp [hpos, travel, hd]
+    · simp [hpos, travel, hfw']
+
+/-- **One pass of the compiled program.** Interpreting what `write` emitted for a point matrix takes, in travel, exactly the
+sum over consecutive printed points of distance over the arriving feed, starting from where the machine stands. -/
+theorem compiled_pass_travel (hd : ∀ p, dist p p = 0) (cfg : Cfg) (m : List Pt) (cs : CS) (o : Out) (σ : St)
+    (ws : List (G1W × Rat)) (hw : write cfg m cs = .ok o) (hp : printed cfg m = .ok ws) (hs : ∀ p ∈ m, p.s = 0 ∨ p.s = 1)
+    (habs : σ.absMode = true) (hsh : σ.shutter = cs.shutterOn) :
+    travel dist (movesOf (execFlat (flattenStmts o.1) σ).2) = segTimes dist ((σ.pos, 0) :: stations ws) := by
+  rw [(Femto.C01.write_replays cfg m cs o σ ws hw hp hs habs hsh).1]
+  refine travel_expected dist hd σ.pos 0 ws ?_
+  intro w hw'
+  have := ((Femto.C01.printed_full cfg m ws hp).1 w hw').1
+  simp only [fullW, Bool.and_eq_true] at this
+  exact this.1.1.1.2
+
+/-- **The estimate is `scan` passes of the compiled program.** For a closed path whose recorded points `l` are printed as
+`ws`, if the compilation preserves the distances between consecutive points (`hiso`: rotation, flips and shift are isometries;
+index ratio 1; the coordinates are printed exactly) then the estimate `fabTime` over the recorded points is the number of
+scans times the travel time of the moves of the compiled program, run from its first point. -/
+theorem fabtime_is_scan_passes {P : Type} (dist0 : P → P → Rat) (hd0 : ∀ p, dist0 p p = 0) (hd : ∀ p, dist p p = 0)
+    (scan : Nat) (l : List (P × Rat)) (hclosed : l.head?.map Prod.fst = l.getLast?.map Prod.fst)
+    (cfg : Cfg) (m : List Pt) (cs : CS) (o : Out) (σ : St) (ws : List (G1W × Rat))
+    (hw : write cfg m cs = .ok o) (hp : printed cfg m = .ok ws) (hs : ∀ p ∈ m, p.s = 0 ∨ p.s = 1)
+    (habs : σ.absMode = true) (hsh : σ.shutter = cs.shutterOn)
+    (hstart : ∀ w, ws.head? = some w → σ.pos = posOf w.1)
+    (hiso : segTimes dist (stations ws) = segTimes dist0 l) :
+    fabTime dist0 scan l = scan * travel dist (movesOf (execFlat (flattenStmts o.1) σ).2) := by
+  rw [fabtime_closed_path dist0 hd0 scan l hclosed, compiled_pass_travel dist hd cfg m cs o σ ws hw hp hs habs hsh, ← hiso]
+  congr 1
+  cases ws with
+  | nil => simp [stations, segTimes]
+  | cons w rest =>
+    have := hstart w rfl
+    simp only [stations, List.map_cons, segTimes, this, hd, zero_div, zero_add]
+
+end pass
+
 /-! non-vacuity -/
 example : totalDwell (flattenStmts (session { header := Femto.Gen.header_pharos }
     [.rep 3 [.dwell (some 1), .forr "i" 2 [.dwell (some (1/4)), .raise, .dwell (some 5)]], .dvar ["i"]]).1)
     = some (session { header := Femto.Gen.header_pharos }
     [.rep 3 [.dwell (some 1), .forr "i" 2 [.dwell (some (1/4)), .raise, .dwell (some 5)]], .dvar ["i"]]).2.dwellTotal :=
   dwell_accounting _ _ (by decide)
+
+/-! non-vacuity of `fabtime_is_scan_passes`: a closed path compiled with an origin shift and a y flip — `write` accepts it,
+the printed points are at the same (Manhattan, to stay in ℚ) distances as the recorded ones, the path is closed -/
+section nonvacuity
+private def oabs (a b : Option Rat) : Rat := match a, b with | some p, some q => rabs (p - q) | _, _ => 0
+private def manh (p q : Pos) : Rat := oabs p.x q.x + oabs p.y q.y + oabs p.z q.z
+private def manh0 (p q : Rat × Rat × Rat) : Rat := rabs (p.1 - q.1) + rabs (p.2.1 - q.2.1) + rabs (p.2.2 - q.2.2)
+private def cfgE : Cfg := { header := Femto.Gen.header_uwe, shiftX := 1/2, flipY := true }
+private def mE : List Pt := [⟨0, 0, 0, 5, 0⟩, ⟨0, 0, 0, 5, 1⟩, ⟨1, 0, 0, 2, 1⟩, ⟨1, 1/4, 0, 2, 1⟩, ⟨0, 0, 0, 4, 1⟩, ⟨0, 0, 0, 4, 0⟩]
+private def lE : List ((Rat × Rat × Rat) × Rat) := mE.map fun p => ((p.x, p.y, p.z), p.f)
+
+example : (match write cfgE mE {}, printed cfgE mE with
+    | .ok _, .ok ws => decide (segTimes manh (stations ws) = segTimes manh0 lE) && decide (ws.length = 6) &&
+        decide (lE.head?.map Prod.fst = lE.getLast?.map Prod.fst)
+    | _, _ => false) = true := by decide +kernel
+end nonvacuity
+
 
 end Femto.C12
